@@ -32,6 +32,10 @@ fn drive<C: Check>(c: &C, args: &[String]) -> i32 {
         let Some(p) = args.get(1) else { usage() };
         return runner::replay(c, p);
     }
+    let tier_pre = args.first().map(|s| s.as_str()) == Some("thorough");
+    if tier_pre {
+        rng::DEPTH.store(3, std::sync::atomic::Ordering::Relaxed);
+    }
     let tier = match args.first().map(|s| s.as_str()) {
         Some("quick") | None => Tier::Quick,
         Some("thorough") => Tier::Thorough,
